@@ -209,7 +209,7 @@ def rule_canonicaliser(ctx):
     W = Walker(ctx, f, [Atom("cmp(values.len(),1)", "cmp", m_multi, ["<", "=", ">"]), Atom("is_list", "bool", a_list, [True, False])])
     writes = [c["bb"] for c in T.calls() if c["q"].startswith("quick_protobuf::writer::Writer::write_")]
     from .c07 import loop_head
-    head = loop_head(ctx, f)
+    head = loop_head(ctx, f, target=writes) if writes else None
     ctx.floor(R, "writer calls", len(writes), 4)
     if head is not None:
         names, tab = W.table({"write": writes}, start=head)
